@@ -217,3 +217,29 @@ pub fn make_like(b: &Board, ml: &MoveLike) -> Option<Result<Board, String>> {
         MoveLike::TryUnchecked(r) => b.make_move(unsafe { make::TryUnchecked::new(move_of(r)?) }).map_err(|e| e.to_string()),
     })
 }
+
+/// Re-pushes a recorded move into a chain: through the safe `push` for a real move, through the
+/// unsafe-built `Unchecked` wrapper for the null move (which the safe route refuses by design).
+/// The caller guarantees the null move is within its contract (mover not in check).
+pub fn repush<R: Repeat>(c: &mut BaseMoveChain<R>, m: Move) -> Result<(), String> {
+    if m == Move::NULL {
+        if c.last().is_check() {
+            return Err("null move while in check".into());
+        }
+        c.push(unsafe { make::Unchecked::new(m) }).map_err(|e| e.to_string())
+    } else {
+        c.push(m).map_err(|e| e.to_string())
+    }
+}
+
+/// Functional application of a recorded move (null move through `Unchecked`).
+pub fn reapply(b: &Board, m: Move) -> Result<Board, String> {
+    if m == Move::NULL {
+        if b.is_check() {
+            return Err("null move while in check".into());
+        }
+        b.make_move(unsafe { make::Unchecked::new(m) }).map_err(|e| e.to_string())
+    } else {
+        b.make_move(m).map_err(|e| e.to_string())
+    }
+}
